@@ -597,8 +597,12 @@ func strictEqualityComparison(x Value, y Value) bool {
 // Export will attempt to convert the value to a Go representation
 // and return it via an interface{} kind.
 //
-// Export returns an error, but it will always be nil. It is present
-// for backwards compatibility.
+// Export returns an error if exporting runs script code that throws (a
+// getter, for example).
+//
+// An object that contains itself is exported once: the cyclic reference
+// points at the same Go map. A reference from inside an array back to that
+// array (while it is still being exported) is exported as nil.
 //
 // If a reasonable conversion is not possible, then the original
 // value is returned.
@@ -611,10 +615,20 @@ func strictEqualityComparison(x Value, y Value) bool {
 //	Array       -> []interface{}
 //	Object      -> map[string]interface{}
 func (v Value) Export() (interface{}, error) {
-	return v.export(), nil
+	var result interface{}
+	err := catchPanic(func() {
+		result = v.export()
+	})
+	return result, err
 }
 
 func (v Value) export() interface{} {
+	return v.exportVisited(map[*object]interface{}{})
+}
+
+// exportVisited is export with a record of the objects already exported (or
+// being exported), so that cyclic structures terminate.
+func (v Value) exportVisited(visited map[*object]interface{}) interface{} {
 	switch v.kind {
 	case valueUndefined:
 		return nil
@@ -641,7 +655,11 @@ func (v Value) export() interface{} {
 		case *goSliceObject:
 			return value.value.Interface()
 		}
+		if exported, exists := visited[obj]; exists {
+			return exported
+		}
 		if obj.class == classArrayName {
+			visited[obj] = nil
 			result := make([]interface{}, 0)
 			lengthValue := obj.get(propertyLength)
 			length := lengthValue.value.(uint32)
@@ -655,7 +673,7 @@ func (v Value) export() interface{} {
 				if !obj.hasProperty(name) {
 					continue
 				}
-				value := obj.get(name).export()
+				value := obj.get(name).exportVisited(visited)
 
 				t = reflect.TypeOf(value)
 
@@ -688,6 +706,7 @@ func (v Value) export() interface{} {
 
 			if state != 1 || kind == reflect.Interface || t == nil {
 				// No common type
+				visited[obj] = result
 				return result
 			}
 
@@ -696,15 +715,17 @@ func (v Value) export() interface{} {
 			for i, v := range result {
 				val.Index(i).Set(reflect.ValueOf(v))
 			}
+			visited[obj] = val.Interface()
 			return val.Interface()
 		}
 
 		result := make(map[string]interface{})
+		visited[obj] = result
 		// TODO Should we export everything? Or just what is enumerable?
 		obj.enumerate(false, func(name string) bool {
 			value := obj.get(name)
 			if value.IsDefined() {
-				result[name] = value.export()
+				result[name] = value.exportVisited(visited)
 			}
 			return true
 		})
